@@ -211,6 +211,13 @@ Definition enough (net : bool) (limit : Z) (d : db) : Prop :=
 
 Definition own_hashes (d : db) : list N := map b_hash (filter b_mine (blobs d)).
 
+(* a list is ordered by a (total, transitive) boolean order *)
+Fixpoint sorted_by (le : row -> row -> bool) (l : list row) : Prop :=
+  match l with
+  | [] => True
+  | x :: t => (forall y, In y t -> le x y = true) /\ sorted_by le t
+  end.
+
 (* ---- example states (used by the Examples of Props/C19.v) ---- *)
 
 (* the reproducer of the repaired defect: 3 MB used, limit 100 MB *)
